@@ -772,6 +772,8 @@ Section Lines.
     - destruct yerr as [e|]; (split; [|exact Hg]); cbn [f_error]; [exact Hy|exact He].
     - pose proof (Hds d nl (or_introl eq_refl)) as Hd.
       assert (Hl : elen (firstn nl all_lines) <= T) by (pose proof (elen_firstn nl all_lines); lia).
+      destruct (too_big d).
+      { split; [|exact Hg]. intros pe E. cbn [f_error] in E. inversion E; subst. exact (proj2 (fits_good 0 d Hd)). }
       destruct (strict_prepass null_ok d) as [e0|] eqn:SP.
       { split; [|exact Hg]. intros pe E. cbn [f_error] in E. inversion E; subst. exact (strict_prepass_ok d pe Hd SP). }
       pose proof (parse_groups_ok thanos (firstn nl all_lines) Hl d Hd) as P.
@@ -895,7 +897,10 @@ Section Lines.
                  parse_relaxed_loop plines metric_ok lname_ok lvalue_ok all_lines ds0 yerr acc = Some f0 -> file_ok f0).
     { induction ds0 as [|[d nl] r IH]; intros acc f0 Hds Ha H; cbn [parse_relaxed_loop] in H.
       - inversion H; subst. split; [exact Hy|exact Ha].
-      - destruct (PN (doc_fuel d) (firstn nl all_lines) 0 d None None) as [gs|] eqn:E; [|discriminate].
+      - destruct (too_big d).
+        { inversion H; subst. split; [|exact Ha]. intros pe E. cbn [f_error] in E. inversion E; subst.
+          exact (proj2 (fits_good 0 d (Hds d nl (or_introl eq_refl)))). }
+        destruct (PN (doc_fuel d) (firstn nl all_lines) 0 d None None) as [gs|] eqn:E; [|discriminate].
         eapply IH; [intros d0 nl0 H0; exact (Hds d0 nl0 (or_intror H0))| |exact H].
         apply groups_ok_app; [exact Ha|].
         eapply parse_node_ok; [|exact (Hds d nl (or_introl eq_refl))| |exact E].
